@@ -269,6 +269,10 @@ func checkC10(p *Program, r *Report) {
 	// ---- session typestate: no lookup reads a session field left over from a previous node
 	checkSessionTypestate(p, r, "C10.session-valid")
 
+	// ---- keys are bytes: no lookup or scan walks key material by runes
+	checkNoRuneWalk(p, r, "C10.bytes-not-runes", p.Method(p.Trie, "SlimTrie", "Get"), p.Method(p.Trie, "SlimTrie", "GetID"), p.Method(p.Trie, "SlimTrie", "RangeGet"),
+		p.Method(p.Trie, "SlimTrie", "Search"), p.Method(p.Trie, "SlimTrie", "ScanFrom"), p.Method(p.Trie, "SlimTrie", "ScanFromTo"), p.Method(p.Trie, "SlimTrie", "NewIter"), p.Trie.Func("NewSlimTrie"))
+
 	// ---- same descent
 	r.Rule("C10.same-descent", "structure+E6", "one descent per answer family; equal cursor arithmetic", 3)
 	getID := p.Method(p.Trie, "SlimTrie", "GetID")
@@ -878,4 +882,8 @@ func checkLeafDecoder(p *Program, r *Report, rule string) {
 	default:
 		r.OK("Get/RangeGet/Search locate leaf bytes by the decoder", "", "only through a method of the leaf array")
 	}
+}
+
+func init() {
+	controlFns["C10"] = func(fx *Program, r *Report) { controlNoRuneWalk(fx, r, "C10.bytes-not-runes") }
 }
